@@ -650,3 +650,13 @@ fn can_flatten_block_around_this(body: &ast::Expr) -> bool {
         _ => false,
     }
 }
+
+#[cfg(feature = "verif-hooks")]
+pub(crate) mod verif_local {
+    use super::*;
+
+    /// `arm_comma`.
+    pub(crate) fn arm_comma(config: &Config, body: &ast::Expr, is_last: bool) -> &'static str {
+        super::arm_comma(config, body, is_last)
+    }
+}
